@@ -45,7 +45,7 @@ class C04(object):
             c['scalar'] = n == 1 and c['space'] is None and rng.random() < 0.4
             c['order'] = rng.choice(ORDERS)
             c['rvs'] = rng.random() < 0.5
-            if what != 'shannon' and c.get('style') == 'near-degenerate':
+            if what != 'shannon' and c.get('style') == 'near-degenerate' and c['rvs']:   # (only marginal() trims; the whole distribution keeps them)
                 # marginal() drops probabilities within the library's null tolerance (1e-8) by design; orders
                 # below one are discontinuous there, so the near-degenerate family uses 2^-20 for these measures
                 k = len(c['pmf'])
@@ -184,6 +184,18 @@ class C04(object):
             if r.oracle_fail:
                 break
         r.detail = {'checks': [(l, v, mv, ref) for l, v, mv, ref in checks]}
+        # the calls above are queries: the stored table is what it was, and asking again gives the same answers
+        if not r.oracle_fail:
+            after = [float(v) for v in d.pmf]
+            if after != [p for _, p in rows]:
+                r.oracle_fail = '%s changed the stored pmf of its argument: %s -> %s' % (what, [p for _, p in rows][:6], after[:6])
+            else:
+                try:
+                    again = float(H1(d)) if case.get('scalar') else float(H1(d, nm(list(range(n))), rv_mode=rv_mode))
+                    if abs(again - Href(list(range(n)))) > 1e-9:
+                        r.oracle_fail = 'entropy of the whole distribution after the calls is %r, the definition gives %r' % (again, Href(list(range(n))))
+                except Exception as e:  # noqa
+                    r.oracle_fail = 'entropy after the calls raised %s' % type(e).__name__
         return r
 
 
